@@ -83,6 +83,7 @@ Definition obj_write (o : obj) : W unit := write_objects o false.
 Definition read_elem (ty : Z) (packed : bool) : R (list Z) :=
   len <-r (if packed then read_7bit else read_int32 swp) ;;
   if len <? 0 then rfail SBDF_ERROR_INVALID_SIZE else
+  if (ty =? SBDF_STRINGTYPEID) && (len =? INT_MAX) then rfail SBDF_ERROR_OUT_OF_MEMORY else
   ralloc cap (len + (if ty =? SBDF_STRINGTYPEID then 5 else 4)) ;;r
   fread_bytes len.
 
